@@ -1,4 +1,5 @@
 import TR.Lemmas.Budget
+import TR.Lemmas.BudgetCons
 import TR.Lemmas.BudgetTrace
 import TR.Lemmas.BudgetTraceOuts
 /-!
@@ -25,6 +26,19 @@ theorem conservation_final (cfg : Cfg) (hwf : WF cfg) (progs : List (List BOp)) 
     (runAll cfg progs sched).granted * cfg.cost + (runAll cfg progs sched).tokens
       ≤ cfg.initial + (runAll cfg progs sched).deposits * cfg.amount :=
   (runAll_inv cfg hwf progs sched).cons
+
+/-- Conservation needs no hypothesis on the configuration at all: it holds for EVERY `cfg` — an initial balance above the
+maximum, a decrease factor above one, zero amounts — in every reachable state of every interleaving, and after the
+remaining threads have run to completion. (`WF` above is what the *cap* needs.) -/
+theorem conservation_any (cfg : Cfg) (progs : List (List BOp)) (sched : List Nat) :
+    (run cfg progs sched).granted * cfg.cost + (run cfg progs sched).tokens
+      ≤ cfg.initial + (run cfg progs sched).deposits * cfg.amount :=
+  (run_inv0 cfg progs sched).cons
+
+theorem conservation_any_final (cfg : Cfg) (progs : List (List BOp)) (sched : List Nat) :
+    (runAll cfg progs sched).granted * cfg.cost + (runAll cfg progs sched).tokens
+      ≤ cfg.initial + (runAll cfg progs sched).deposits * cfg.amount :=
+  (drain_inv0 cfg _ _ (run_inv0 cfg progs sched)).cons
 
 /-- The balance never exceeds its configured maximum (AIMD: a deposit is capped at a limit value
 that was read earlier, and every limit value is at most `max_budget`). -/
